@@ -815,3 +815,18 @@ def r_fieldpos(ctx, classes, rule: str = 'R-FIELDPOS') -> int:
                 crossed = sorted((names & named) - {f})
                 ctx.check(f in names and not (crossed and f not in names), rule, ci.ref, f'{ci.qual}: position {i} (field `{f}`) stores `{core.src(a)[:50]}`' + (f' - derived from `{crossed}` instead' if f not in names else ''), a, key=f'{ci.qual}:{i}:{f}')
     return n
+
+
+def r_repreq(ctx, funcs, rule: str = 'R-REPREQ') -> int:
+    """No equality decision through printed forms: ``repr(a) == repr(b)`` / ``str(a) != str(b)``.  DSL reprs are not injective
+    (infix/prefix operators print without parentheses, literals print their bare value), so different predicates print the
+    same.  Ordering by repr (sorting keys, ``<``) is not an equality decision and stays allowed.  Returns #functions scanned."""
+    n = 0
+    for fn in funcs:
+        n += 1
+        for c in core.walk_local(fn.node):
+            if isinstance(c, ast.Compare) and len(c.ops) == 1 and isinstance(c.ops[0], (ast.Eq, ast.NotEq, ast.Is, ast.IsNot)):
+                sides = [c.left, c.comparators[0]]
+                if all(isinstance(x, ast.Call) and isinstance(x.func, ast.Name) and x.func.id in ('repr', 'str') and len(x.args) == 1 for x in sides):
+                    ctx.fail(rule, fn, f'equality decided by comparing printed forms: `{core.src(c)}` (the DSL repr is not injective)', c)
+    return n
